@@ -1146,6 +1146,50 @@ fn ref_call(s: &S, req: u32, out: &mut Vec<Ev>) -> Result<u32, u32> {
     }
 }
 
+/// number of leading events of `ref_call(s, req)` that happen synchronously inside `call(req)`, before
+/// the returned future is polled for the first time: `call` invokes the first stage (and every
+/// closure / shim on the way to it) at once, in call order
+fn sync_len(s: &S, req: u32) -> usize {
+    match s {
+        S::Leaf { .. } | S::Fn { .. } => 1,
+        S::Map(x, _) | S::MapErr(x, _) | S::Wrap(_, x) => sync_len(x, req),
+        S::Then(a, _) => sync_len(a, req),
+        S::Apply(x, AK::Pre, k) => 1 + sync_len(x, mapfn(*k, req)),
+        S::Apply(_, AK::Short, _) => 1,
+        S::Apply(x, AK::Post, _) => 1 + sync_len(x, req),
+        S::Mw(x, _) => 1 + sync_len(x, req),
+        S::Reenter(_, _, x) => 1 + (req % 2) as usize + sync_len(x, re_req(req)),
+    }
+}
+/// the events that happen synchronously inside `new_service(cfg)`, in order: every inner factory is
+/// asked at once (pipeline order), config mappers and the `apply_cfg` closure run at once
+fn fac_sync(f: &F, cfg: u32, out: &mut Vec<Ev>) {
+    match f {
+        F::Leaf { id, use_cfg, .. } => out.push(Ev::New(*id, if *use_cfg { cfg } else { 0 })),
+        F::Fn { .. } => {}
+        F::Map(a, _) | F::MapErr(a, _) | F::MapInitErr(a, _) | F::Apply(a, _, _) | F::Boxed(a) | F::Rc(a) | F::Arc(a) => fac_sync(a, cfg, out),
+        F::Transform { a, .. } => fac_sync(a, cfg, out),
+        F::Then(a, b) => {
+            fac_sync(a, cfg, out);
+            fac_sync(b, cfg, out)
+        }
+        F::ApplyCfg { f, .. } => out.push(Ev::Mapped('f', *f, cfg)),
+        F::ApplyCfgFac { a, .. } => fac_sync(a, 0, out),
+        F::MapConfig(a, m) => {
+            out.push(Ev::Mapped('g', *m, cfg));
+            fac_sync(a, mapfn(*m, cfg), out)
+        }
+        F::UnitConfig(a) => fac_sync(a, 0, out),
+        F::Reenter(_, k, a) => {
+            out.push(Ev::Mapped('z', *k, cfg));
+            if cfg % 2 == 1 {
+                out.push(Ev::Mapped('z', *k, cfg - 1));
+            }
+            fac_sync(a, re_req(cfg), out)
+        }
+    }
+}
+
 fn re_req(v: u32) -> u32 {
     v - v % 2
 }
@@ -1894,8 +1938,10 @@ fn run(a: &Args) {
                 let req = num(toks.last().unwrap()).unwrap();
                 let owner = RefCell::new(cur.take());
                 let polls = RefCell::new(vec![]);
+                let mark = Cell::new(None);
                 let r = catch(|| {
                     let mut fut = owner.borrow().as_ref().unwrap().call(req);
+                    mark.set(Some(LOG.with(|l| l.borrow().len())));
                     drive_hook(fut.as_mut(), &w, &polls, &mut |n| {
                         if drop_after == Some(n) {
                             CELLS.with(|c| c.borrow_mut().clear());
@@ -1945,6 +1991,12 @@ fn run(a: &Args) {
                             e => Some(e.clone()),
                         })
                         .collect();
+                    if let Some(m) = mark.get() {
+                        let n = sync_len(ast, req).min(want_log.len());
+                        if log[..m.min(log.len())] != want_log[..n] {
+                            rep.t3("C11", &format!("call-not-eager: call({req}) of {ast}: when `call` returned its future {} had happened, the composition invokes the first stage at call time: {}", fmt_log(&log[..m.min(log.len())]), fmt_log(&want_log[..n])));
+                        }
+                    }
                     if got_log != want_log {
                         rep.t3("C11", &format!("composition-trace: call({req}) of {ast}: stages/mappers ran as {} but the composition requires {} (each stage once, in order, after the previous one completed; each mapper once on the matching variant)", fmt_log(&got_log), fmt_log(&want_log)));
                     }
@@ -1978,6 +2030,112 @@ fn run(a: &Args) {
                     format!("{} r={res} k={k}", fmt_log(&log))
                 }
             }
+            "call2" if toks.len() == 4 && cur.is_some() && matches!(toks[1].as_str(), "fwd" | "rev" | "drop") && num(&toks[2]).is_some() && num(&toks[3]).is_some() => {
+                // two call futures of the same service alive at once: `call(r1)` then `call(r2)`, then
+                // fwd: drive the first, then the second; rev: the second first; drop: the first is dropped
+                // without ever being polled.  `call` invokes the first stage at once, in call order.
+                let mode = toks[1].as_str();
+                let (r1, r2) = (num(&toks[2]).unwrap(), num(&toks[3]).unwrap());
+                let svc = cur.as_ref().unwrap();
+                let polls = RefCell::new(vec![]);
+                let mark = Cell::new(None);
+                let r = catch(|| {
+                    let mut f1 = svc.call(r1);
+                    let mut f2 = svc.call(r2);
+                    mark.set(Some(LOG.with(|l| l.borrow().len())));
+                    match mode {
+                        "fwd" => {
+                            let a = drive(f1.as_mut(), &w, &polls);
+                            let b = drive(f2.as_mut(), &w, &polls);
+                            (Some(a), b)
+                        }
+                        "rev" => {
+                            let b = drive(f2.as_mut(), &w, &polls);
+                            let a = drive(f1.as_mut(), &w, &polls);
+                            (Some(a), b)
+                        }
+                        _ => {
+                            drop(f1);
+                            (None, drive(f2.as_mut(), &w, &polls))
+                        }
+                    }
+                });
+                let log = take_log();
+                let polls = polls.into_inner();
+                let k: u32 = polls.iter().map(|p: &PollRec| wakes_of(p.w)).sum();
+                let ds = |d: &Drv<Result<u32, u32>>| match d {
+                    Drv::Done(Ok(v)) => format!("ok:{v}"),
+                    Drv::Done(Err(e)) => format!("err:{e}"),
+                    Drv::Fuel => "stuck".to_string(),
+                    Drv::Stalled => "stalled".to_string(),
+                };
+                let res = match &r {
+                    Ok((a, b)) => format!("{},{}", a.as_ref().map(ds).unwrap_or_else(|| "dropped".to_string()), ds(b)),
+                    Err(_) => "panic".to_string(),
+                };
+                if let Some(ast) = cur_ast.as_ref() {
+                    let (mut l1, mut l2) = (vec![], vec![]);
+                    let want1 = ref_call(ast, r1, &mut l1);
+                    let want2 = ref_call(ast, r2, &mut l2);
+                    let (n1, n2) = (sync_len(ast, r1).min(l1.len()), sync_len(ast, r2).min(l2.len()));
+                    let what = format!("call({r1}) and call({r2}) of {ast}, {}", match mode {
+                        "fwd" => "driven in call order",
+                        "rev" => "the second future driven first",
+                        _ => "the first future dropped unpolled",
+                    });
+                    let ok = match &r {
+                        Ok((a, b)) => matches!(b, Drv::Done(x) if *x == want2) && a.as_ref().map(|a| matches!(a, Drv::Done(x) if *x == want1)).unwrap_or(true),
+                        Err(_) => false,
+                    };
+                    if !ok {
+                        rep.t3("C11", &format!("composition-result: {what} resolved to {res}, the reference compositions are {want1:?} and {want2:?} (independent of the order in which the futures are polled)"));
+                    }
+                    // at call time, in call order: the first stage of each call
+                    let mut want_sync = l1[..n1].to_vec();
+                    want_sync.extend_from_slice(&l2[..n2]);
+                    if let Some(m) = mark.get() {
+                        if log[..m.min(log.len())] != want_sync[..] {
+                            rep.t3("C11", &format!("call-not-eager: {what}: when both `call`s had returned {} had happened; the composition invokes the first stage at call time, in call order: {}", fmt_log(&log[..m.min(log.len())]), fmt_log(&want_sync)));
+                        }
+                    }
+                    // then the rest of each composition, in the order the futures are driven
+                    let mut want_log = want_sync.clone();
+                    match mode {
+                        "fwd" => {
+                            want_log.extend_from_slice(&l1[n1..]);
+                            want_log.extend_from_slice(&l2[n2..]);
+                        }
+                        "rev" => {
+                            want_log.extend_from_slice(&l2[n2..]);
+                            want_log.extend_from_slice(&l1[n1..]);
+                        }
+                        _ => want_log.extend_from_slice(&l2[n2..]),
+                    }
+                    let got_log: Vec<Ev> = log
+                        .iter()
+                        .filter_map(|e| match e {
+                            Ev::Polled(_, _, None) => None,
+                            Ev::Polled(id, _, r) => Some(Ev::Polled(*id, 0, *r)),
+                            e => Some(e.clone()),
+                        })
+                        .collect();
+                    if r.is_ok() && got_log != want_log {
+                        rep.t3("C11", &format!("composition-trace: {what}: stages/mappers ran as {} but the compositions require {} (each first stage at its `call`, every later step when its own future is polled)", fmt_log(&got_log), fmt_log(&want_log)));
+                    }
+                    if REPOLL.with(|r| r.get()) {
+                        rep.t3("C12", &format!("poll-after-done: {what}: an inner future was polled again after it completed"));
+                    }
+                    if r.is_err() && !REPOLL.with(|r| r.get()) {
+                        rep.t3("C12", &format!("future-panicked: {what}: a combinator future panicked after {}", fmt_log(&log)));
+                    }
+                    check_polls(&mut rep, &what, &log, &polls, r.is_err());
+                }
+                if r.is_err() {
+                    format!("{} r={res}", fmt_log(&log))
+                } else {
+                    format!("{} r={res} k={k}", fmt_log(&log))
+                }
+            }
             "fac" | "facd" => {
                 // `facd k F cfg`: the FACTORY value is dropped after `new_service` returned the future and
                 // the future answered Pending k times (k = 0: before the first poll, a temporary factory)
@@ -2002,9 +2160,11 @@ fn run(a: &Args) {
                         cur = None;
                         cur_ast = None;
                         let polls = RefCell::new(vec![]);
+                        let mark = Cell::new(None);
                         let r = catch(|| {
                             let fac = RefCell::new(Some(build_fac(&f)));
                             let mut fut = fac.borrow().as_ref().unwrap().new_service(cfg);
+                            mark.set(Some(LOG.with(|l| l.borrow().len())));
                             drive_hook(fut.as_mut(), &w, &polls, &mut |n| {
                                 if drop_after == Some(n) {
                                     drop(fac.borrow_mut().take());
@@ -2053,6 +2213,13 @@ fn run(a: &Args) {
                             v.sort_unstable();
                             v
                         };
+                        if let Some(m) = mark.get() {
+                            let mut want_sync = vec![];
+                            fac_sync(&f, cfg, &mut want_sync);
+                            if log[..m.min(log.len())] != want_sync[..] {
+                                rep.t3("C11", &format!("new-service-not-eager: {what}: when `new_service` returned its future {} had happened, the composition asks every inner factory (and runs config mappers / the apply_cfg closure) at that time, in pipeline order: {}", fmt_log(&log[..m.min(log.len())]), fmt_log(&want_sync)));
+                            }
+                        }
                         if sorted(&got_news) != sorted(&tr.news) {
                             rep.t3("C11", &format!("factory-builds-once: {what}: inner factories were asked {got_news:?}, expected each once with its config: {:?}", tr.news));
                         } else if got_news != tr.news {
@@ -2690,6 +2857,9 @@ fn emit_ops(w: &mut dyn Write, rng: &mut Rng, n: usize, ready_bias: usize, nleav
         if nleaves > 0 && called && rng.chance(1, 6) {
             writeln!(w, "reset {} {} {}\nready", rng.below(nleaves), rng.below(3), oe(rng.chance(2, 3))).unwrap();
         }
+        if called && rng.chance(1, 6) {
+            writeln!(w, "call2 {} {} {}", ["rev", "drop", "fwd"][rng.below(3)], rng.below(10), rng.below(10)).unwrap();
+        }
         if rng.below(10) < ready_bias && !(i + 1 == n && !called) {
             writeln!(w, "ready").unwrap();
         } else {
@@ -2792,6 +2962,7 @@ fn emit_fac_case_d(w: &mut dyn Write, name: &str, f: &F, cfg: u32, drop_after: O
         if let Some(i) = ids.first() {
             writeln!(w, "reset {i} 1 {}\nready\nready", oe(cfg % 2 == 0)).unwrap();
         }
+        writeln!(w, "call2 {} 1 {}", ["rev", "drop", "fwd"][cfg as usize % 3], 2 + cfg % 3).unwrap();
         // the service value dropped while its call future is in flight
         writeln!(w, "calld {} 3", (cfg as usize + drop_after.unwrap_or(0)) % 3).unwrap();
     } else {
@@ -2817,7 +2988,7 @@ fn gen_catalogue(w: &mut dyn Write) {
     let mut svc_case = |w: &mut dyn Write, tag: &str, s: &S, ops: &str| {
         n += 1;
         // the last op drops the service value while its call future is in flight
-        writeln!(w, "case cat-{tag}-{n}\nsvc {s}\n{ops}\ncalld {} {}", n % 3, 1 + n % 2).unwrap();
+        writeln!(w, "case cat-{tag}-{n}\nsvc {s}\n{ops}\ncall2 rev 1 2\ncall2 drop 3 {}\ncall2 fwd 2 1\ncalld {} {}", n % 4, n % 3, 1 + n % 2).unwrap();
     };
     let oks = [true, false];
     for k in 0..3u32 {
@@ -2951,6 +3122,8 @@ fn gen(a: &Args) {
         "call 3",
         "reset 0 1 ok",
         "calld 0 1",
+        "call2 rev 1 2",
+        "call2 sideways 1 2",
         "facd x (ffn 11 ok) 1",
         "facd 0 (ffn 11 ok)",
         "calld 1",
@@ -3006,6 +3179,7 @@ fn gen(a: &Args) {
                 if nl > 0 {
                     writeln!(w, "reset 0 1 {}\nready\nready", oe(d % 2 == 0)).unwrap();
                 }
+                writeln!(w, "call2 {} {} {}", ["rev", "drop", "fwd"][d % 3], 1 + d % 4, 2 + d % 3).unwrap();
                 writeln!(w, "calld {} 3", d % 3).unwrap();
             } else {
                 emit_ops(&mut w, &mut rng, 5, ready_bias, nl);
